@@ -7,7 +7,7 @@ from typing import Any
 
 from ..astutil import attr_writes, is_none
 from ..cfg import Node, cfg_of, node_calls, walk_own
-from ..closed import find_roles, resolver
+from ..closed import find_roles, resolver, state_member
 from ..flow import occurred_before
 from ..guard import fmt_table, truth_table, walk
 from ..report import Ctx
@@ -188,6 +188,21 @@ def run(ctx: Ctx) -> None:
     early = [n for n in (set(clear_nodes) | set(cancel_nodes)) if n in pre and n is not start and start not in walk(gd, {}, lambda n: None, start=n, blocked=set()) - {n}]
     ctx.ob("C10.R1", disp, "only parsed messages count as a sign of life", not [n for n in (set(clear_nodes) | set(cancel_nodes)) if _before(gd, n, parse[0])], "the bookkeeping runs before the payload has been parsed: garbage would keep the session alive")
 
+    # ... and no message is dealt with before that point: short of the closed-connection guard, the dispatcher has no
+    # normal exit that avoids the parse (a fast path for one message type would leave the bookkeeping out for it)
+    def cl_closed(n: Node):
+        t = n.ast
+        if isinstance(t, ast.Compare) and len(t.ops) == 1 and isinstance(t.ops[0], (ast.Is, ast.Eq, ast.IsNot, ast.NotEq)):
+            l, r = t.left, t.comparators[0]
+            for a, b in ((l, r), (r, l)):
+                if isinstance(a, ast.Attribute) and a.attr.lstrip("_") == roles.state_attr.lstrip("_") and state_member(ctx, disp, b, roles.state_enum) == roles.closed_const:
+                    return ("closed", isinstance(t.ops[0], (ast.Is, ast.Eq)))
+        return None
+
+    pre_ = walk(gd, {"closed": False}, cl_closed, blocked={parse[0]})
+    early_ = [n for n in pre_ if n is gd.exit or (n.kind == "stmt" and isinstance(n.ast, ast.Return))]
+    ctx.ob("C10.R1", disp, "on an open connection no message leaves the dispatcher before it was parsed (unknown ids and bad payloads leave through the error handler only)", not early_, f"normal exit without parsing at {[(n.lineno, n.text(40)) for n in early_ if n is not gd.exit][:3]}: messages handled there never clear the pending ping nor cancel the pong deadline")
+
     # ping sent iff flag set
     gt = cfg_of(ctx, tick)
     ping_nodes = []
@@ -238,6 +253,22 @@ def run(ctx: Ctx) -> None:
         for p in now_param:
             v = kval(ctx, fn, a.get(p), 1.0, 1000.0)
             ctx.ob("C10.R3", fn, f"{norm(c)[:60]}: passes the current loop time", v == 1000.0, f"evaluates to {v!r} for loop.time()=1000")
+            # ... read at the call, not before a suspension point (a time taken before an await is the past)
+            av = a.get(p)
+            if isinstance(av, ast.Name):
+                gfn = cfg_of(ctx, fn)
+                defs = [n for n in gfn.reachable() if n.kind == "stmt" and isinstance(n.ast, (ast.Assign, ast.AnnAssign)) and any(isinstance(t, ast.Name) and t.id == av.id for t in (n.ast.targets if isinstance(n.ast, ast.Assign) else [n.ast.target]))]
+                usen = [n for n in gfn.reachable() if any(x is c for x in node_calls(n))]
+                stale = []
+                for d in defs:
+                    fwd = walk(gfn, {}, lambda n: None, start=d, blocked=set(defs) - {d})
+                    for m in fwd:
+                        if m is d or m.ast is None or m in usen:
+                            continue
+                        if any(isinstance(x, ast.Await) for x in walk_own(m.ast)) or (m.kind in ("with-enter", "with-exit", "for") and m.is_async):
+                            if any(u in walk(gfn, {}, lambda n: None, start=m, blocked=set(defs)) for u in usen):
+                                stale.append((d.lineno, m.lineno))
+                ctx.ob("C10.R3", fn, f"{norm(c)[:60]}: the time is read after the last suspension point before the call", not stale, f"`{av.id}` read at L{stale[0][0] if stale else '?'} and used after the await at L{stale[0][1] if stale else '?'}: the tick grid would start in the past (first ping early, silent peer dropped early)")
     sched_nodes = [n for n in gt.reachable() if any(sched in res.callees(tick, c).funcs for c in node_calls(n))]
     ctx.ob("C10.R3", tick, "every normal exit of the tick re-arms the ping timer", bool(sched_nodes) and gt.exit not in walk(gt, {}, lambda n: None, blocked=set(sched_nodes)), "the keepalive would stop after this tick")
     # first arm only after hello/login
